@@ -14,6 +14,7 @@
 -/
 import Model.Jl
 import Proofs.Row
+import Proofs.JlDescriptor
 
 namespace Jl.C19
 open Jl Jl.Value Jl.Template Jl.JlCmd
@@ -130,5 +131,53 @@ example : parseDescriptor ([0x62, 0x69, 0x6E, 0x61, 0x72, 0x79] ++ [0x28, 0x69, 
     (.binary, .int .i32) := by decide
 example : parseDescriptor [] = (.auto, .none) := by decide
 example : parseDescriptor [0x73, 0x28, 0x29] = (.auto, .none) := by decide          -- "s()": no match
+
+/-! ### The descriptor language: the hand-written splitter IS the regular expression (`Proofs/JlDescriptor`)
+
+  `JlDescriptor.Matches s name arg?` is `^([^\(]+)(?:\(([^\)]+)\))?$` as a relation on bytes (a match is unique;
+  reading the text rune by rune as Go's regexp does gives the same matches, ill-formed UTF-8 included:
+  `JlDescriptor.go_rune_match_iff_byte_match`). -/
+
+theorem descriptor_match_unique {s n n' : Bytes} {a a' : Option Bytes}
+    (h : JlDescriptor.Matches s n a) (h' : JlDescriptor.Matches s n' a') : n = n' ∧ a = a' :=
+  JlDescriptor.matches_unique h h'
+
+/-- The model's splitting function returns (name, group 2) exactly for the matches of the expression … -/
+theorem split_is_the_regexp (s n g : Bytes) :
+    splitDescriptor s = some (n, g) ↔ JlDescriptor.Matches s n (JlDescriptor.argOf g) :=
+  JlDescriptor.splitDescriptor_eq_some_iff s n g
+
+/-- … and reports no match exactly when nothing matches. -/
+theorem no_split_iff_no_match (s : Bytes) :
+    splitDescriptor s = none ↔ ¬ ∃ n a, JlDescriptor.Matches s n a :=
+  JlDescriptor.parseDescriptor_none_iff s
+
+/-- Never a failure, and the fallbacks over the REGENERATED registries: no match → (auto, no raw type); otherwise the
+    registry's format for the name (auto when unknown) and the registry's type for the argument (none when unknown or
+    absent). -/
+theorem parseDescriptor_total (s : Bytes) :
+    (¬ (∃ n a, JlDescriptor.Matches s n a) ∧ parseDescriptor s = (.auto, .none)) ∨
+    (∃ n a, JlDescriptor.Matches s n a ∧ parseDescriptor s = (JlDescriptor.formatOf n, JlDescriptor.typeOf a)) :=
+  JlDescriptor.parseDescriptor_total s
+
+/-- Every name of the registries means itself, alone and between parentheses after every format name. -/
+theorem registry_names_mean_themselves (e : Bytes × Format) (he : e ∈ Gen.formatRegistry) (t : Bytes × Ty)
+    (ht : t ∈ Gen.typeRegistry) :
+    parseDescriptor e.1 = (e.2, .none) ∧
+    parseDescriptor (e.1 ++ JlDescriptor.LP :: (t.1 ++ [JlDescriptor.RP])) = (e.2, t.2) :=
+  ⟨JlDescriptor.known_format e he, JlDescriptor.known_format_type e he t ht⟩
+
+/-- Case and white space are significant: a loader that lower-cases or trims descriptors changes what a definition
+    means (the seeded change `C10-14` did the first). -/
+theorem lowercasing_or_trimming_changes_meaning :
+    (∃ s, parseDescriptor (JlDescriptor.asciiLower s) ≠ parseDescriptor s) ∧
+    (∃ s, parseDescriptor (JlDescriptor.trimSpaces s) ≠ parseDescriptor s) :=
+  ⟨JlDescriptor.lowercasing_changes_meaning, JlDescriptor.trimming_changes_meaning⟩
+
+/-- `in:out`: the FIRST colon splits (as `strings.SplitN(_, ":", 2)`); a descriptor without colon stands for both. -/
+theorem inline_pair_split (a b : Bytes) (h : 0x3A ∉ a) :
+    JlDescriptor.inlinePair (a ++ 0x3A :: b) = (parseDescriptor a, parseDescriptor b) ∧
+    JlDescriptor.inlinePair a = (parseDescriptor a, parseDescriptor a) :=
+  ⟨JlDescriptor.inlinePair_colon a b h, JlDescriptor.inlinePair_no_colon a h⟩
 
 end Jl.C19
